@@ -4,6 +4,7 @@ import (
 	"bytes"
 	"encoding/json"
 	"fmt"
+	"hash/crc32"
 	"strings"
 
 	"github.com/rs/zerolog"
@@ -71,7 +72,51 @@ func (f *trigFam) play(l *Line, out *rec) error {
 	d := &trigDest{}
 	w := &zerolog.TriggerLevelWriter{Writer: d, ConditionalLevel: zerolog.Level(c.Cond), TriggerLevel: zerolog.Level(c.Trig)}
 	out.emit(map[string]interface{}{"a": "Reset", "conf": c.Name, "id": l.ID})
-	for _, raw := range l.Ops {
+	// a COMPANION writer with the same thresholds and its own destination lives at the same time (every second history):
+	// from some point of the main history on it holds one line after each main operation, and after the main writer was
+	// closed it triggers. Writers share nothing but the buffer pool: the companion's history must satisfy the same
+	// contract by itself. Its records follow the main ones after a "Reset2" line.
+	h := crc32.ChecksumIEEE([]byte(l.ID))
+	var comp *zerolog.TriggerLevelWriter
+	cd := &trigDest{}
+	var crecs []map[string]interface{}
+	cstart, cwrites := -1, 0
+	if h%2 == 0 {
+		comp = &zerolog.TriggerLevelWriter{Writer: cd, ConditionalLevel: zerolog.Level(c.Cond), TriggerLevel: zerolog.Level(c.Trig)}
+		cstart = int(h/2) % (len(l.Ops) + 1)
+	}
+	clevel := c.Cond // a level the companion's lines are held at, where the thresholds allow one
+	if c.Trig-1 < clevel {
+		clevel = c.Trig - 1
+	}
+	if clevel < -128 {
+		clevel = -128
+	}
+	if clevel == 10 {
+		clevel = 9
+	}
+	compOp := func(a string, s int) {
+		cd.got = [][2]int{}
+		ok := true
+		lv := 0
+		switch a {
+		case "W":
+			lv = clevel
+			p := append([]byte(nil), trigLines[s]...)
+			n, err := comp.WriteLevel(zerolog.Level(lv), p)
+			ok = err == nil && n == len(p)
+		case "T":
+			ok = comp.Trigger() == nil
+		case "C":
+			ok = comp.Close() == nil
+		}
+		crecs = append(crecs, map[string]interface{}{"a": a, "l": lv, "s": s, "out": cd.got, "ok": ok})
+	}
+	for opi, raw := range l.Ops {
+		if comp != nil && opi >= cstart && cwrites < 4 {
+			compOp("W", []int{2, 3, 5, 2}[cwrites])
+			cwrites++
+		}
 		var op trigOp
 		if err := json.Unmarshal(raw, &op); err != nil {
 			return err
@@ -95,7 +140,18 @@ func (f *trigFam) play(l *Line, out *rec) error {
 		}
 		out.emit(map[string]interface{}{"a": op.A, "l": op.L, "s": op.S, "out": d.got, "ok": ok})
 	}
+	if comp != nil && cwrites == 0 {
+		compOp("W", 2)
+	}
 	// like a per-request writer: closed at the end (buffer goes back to the shared pool)
 	w.Close()
+	if comp != nil {
+		compOp("T", 0)
+		compOp("C", 0)
+		out.emit(map[string]interface{}{"a": "Reset2", "conf": c.Name, "id": l.ID + "+companion"})
+		for _, r := range crecs {
+			out.emit(r)
+		}
+	}
 	return nil
 }
